@@ -72,6 +72,9 @@ structure Wire where
   sender : Option Nat
   peer   : Option Nat
   val    : Nat
+  /-- the `ServerIdentity` field INSIDE the wire message, which the sender can fill in as it likes:
+  `Overlay.Process` never reads it (the identity is taken from the envelope) -/
+  claimed : Option Nat := none
 
 /-- what happens to one arriving envelope: `TransmitMsg` refuses a missing sender token, the
 instance aggregates and then verifies. Result: new queues and what the handler/channel receives
@@ -124,6 +127,22 @@ def peer? (s : String) : Option (Option Nat) :=
     | _, _ => none
   | _ => optNat s
 
+/-- one `msg` op; `claimed` is what the sender wrote into the wire message's own identity field -/
+def msgStep (s : State) (t snd peer v : String) (claimed : Option Nat) : State × String :=
+  match t.toNat?, optNat snd, peer? peer, v.toNat? with
+  | some t, some snd, some peer, some v =>
+    let w : Wire := { ty := t, sender := snd, peer := peer, val := v, claimed := claimed }
+    match s.parked with
+    | some ws => ({ s with parked := some (ws ++ [w]) }, "-")
+    | none =>
+    let r := receive s.inst s.q w
+    ({ s with q := r.1 },
+      match r.2 with
+      | none => "-"
+      | some b => if b.isEmpty then "-" else
+          ",".intercalate (b.map fun (n, m) => s!"{m.ty}/{n.id}@{n.server}/{m.val}"))
+  | _, _, _, _ => (s, "bad-op")
+
 /-- `cfg <nodes id:server,…> <parent id|-> <nChildren> <aggregated types>` and
 `msg <type> <claimed sender id|-> <peer server|-> <value>`; the reply to `msg` lists what was
 delivered as `type/senderId@server/value,…` or `-`. -/
@@ -140,6 +159,12 @@ def step (s : State) (toks : List String) : State × String :=
       ({ inst := { nodes := ns, parent := p, nChildren := n, agg := fun t => l.contains t }, q := fun _ => [],
          parked := some [] }, "ok")
     | _, _, _, _ => (s, "bad-op")
+  -- the advisory `RosterIndex` fields of the nodes point elsewhere: they bind nothing
+  | ["cfg", nodes, par, n, aggs, "scrambled-index"] =>
+    match parseNodes nodes, optNat par, n.toNat?, Util.natList aggs with
+    | some ns, some p, some n, some l =>
+      ({ inst := { nodes := ns, parent := p, nChildren := n, agg := fun t => l.contains t }, q := fun _ => [] }, "ok")
+    | _, _, _, _ => (s, "bad-op")
   | ["treearrives"] =>
     match s.parked with
     | none => (s, "ok")
@@ -151,19 +176,12 @@ def step (s : State) (toks : List String) : State × String :=
       ({ s with q := r.1, parked := none },
         if r.2.isEmpty then "-" else
           ",".intercalate (r.2.map fun (n, m) => s!"{m.ty}/{n.id}@{n.server}/{m.val}"))
-  | ["msg", t, snd, peer, v] =>
-    match t.toNat?, optNat snd, peer? peer, v.toNat? with
-    | some t, some snd, some peer, some v =>
-      match s.parked with
-      | some ws => ({ s with parked := some (ws ++ [{ ty := t, sender := snd, peer := peer, val := v }]) }, "-")
-      | none =>
-      let r := receive s.inst s.q { ty := t, sender := snd, peer := peer, val := v }
-      ({ s with q := r.1 },
-        match r.2 with
-        | none => "-"
-        | some b => if b.isEmpty then "-" else
-            ",".intercalate (b.map fun (n, m) => s!"{m.ty}/{n.id}@{n.server}/{m.val}"))
-    | _, _, _, _ => (s, "bad-op")
+  | ["msg", t, snd, peer, v] => msgStep s t snd peer v none
+  -- `w<k>`: the sender put server k's identity into the wire message's own `ServerIdentity` field
+  | ["msg", t, snd, peer, v, w] =>
+    match (if w.startsWith "w" then (w.drop 1).toNat? else none) with
+    | some k => msgStep s t snd peer v (some k)
+    | none => (s, "bad-op")
   | ["rereg"] => (s, "ok")   -- an equal copy of the tree is registered again: nothing changes
   | _ => (s, "bad-op")
 
